@@ -1116,6 +1116,8 @@ class Env:
                 self.ble.subscriptions.clear()
                 if call[3] != "nosubs":
                     self.ble.subscriptions.add((1, 10))
+            elif self.restore_mode is not None:
+                self.restore_mode = "ok"             # later calls of the history: a still pending restore now works
             op = transport + method
             pid = OWN_ID if who == "own" else OTHER_ID
             d = default_oracles()
@@ -1535,7 +1537,7 @@ def run(ctx):
             sample = dict(stream=cell["stream"], step=cell["step"], transport=cell["t"], reply=hx(reply)[:96],
                           fields=cell["meta"]["fields"], impl=impl[:60], model=model[:60])
         cov.case(f"{cell['stream']}|{cell['step']}|{cell['t']}|{cell['meta'].get('status', '-')}|{hx(reply)}|{o_tokens(cell['o'])}|{(cell.get('history') or {}).get('description', '')}", nontrivial, sample=sample,
-                 http_status=cell["meta"].get("status", "-"), http_header=cell_hdr(cell),
+                 http_status=cell["meta"].get("status", "-"), http_header=cell_hdr(cell), ble_restore=cell["meta"].get("restore", "-"),
                  stream=cell["stream"], step=cell["step"], transport=cell["t"], result=canon(impl).split(" ")[0] + " " + (impl.split(" ")[1] if impl.startswith("err") else ""),
                  error_code=("n/a" if items is None else err_name(next((v for k, v in items if k == T_ERROR), None))),
                  state=("n/a" if items is None else state_kind(items, 2 if mg else EXP_STATE[cell["step"]])),
@@ -1713,6 +1715,7 @@ def run(ctx):
         if transport == "ip":
             st, _, name = kind.rpartition(":")
             return [("reply", int(st or 200), ref_encode(H_REPLIES[name]))], H_REPLIES[name]
+        kind = kind.partition("@")[0]                # '@<restore mode>' is handled by the caller
         if kind == "noconn":
             return [("noconn",)], None
         if kind == "pdu5":
@@ -1733,13 +1736,30 @@ def run(ctx):
         for mid in whos:
             for (a, b_, c_) in itertools.product(k3, repeat=3):
                 histories.append((transport, [(("rem", "own"), a), (mid, b_), (("rem", "own"), c_)]))
+    # round 9 (seed Q): the call had to open a fresh connection, so restore_connection_and_resume's finally block runs the
+    # REAL _async_restore_subscriptions after the (refused / accepted) operation: restore fine / nothing to restore /
+    # the accessory dropped the link right after replying (AccessoryDisconnectedError, or a retryable BleakError once)
+    R_MODES = ["ok", "nosubs", "ade", "bleak-once"]
+    n_restore_hist = 0
+    for mw in whos:
+        for kind in ["ok", "ok-nostate", "auth", "auth-nostate", "busy", "wrong-state", "drop+auth", "pdu5"]:
+            for mode in R_MODES:
+                if kind == "drop+auth" and mode == "bleak-once":
+                    continue     # the drop already closes the link, the restore's BleakError would hit the LAST attempt of add_pairing
+                histories.append(("ble", [(mw, kind + "@" + mode)]))
+                histories.append(("ble", [(mw, kind + "@" + mode), (("rem", "own"), "auth")]))
+                histories.append(("ble", [(("add", "other"), "ok"), (mw, kind + "@" + mode)]))
+                n_restore_hist += 3
     hist_calls = []     # (history index, call index, transport, method, who, kind, events, items)
     hist_scripts = []
     for hi, (transport, calls) in enumerate(histories):
         script = []
         for ci, ((method, who), kind) in enumerate(calls):
             events, items = h_events(transport, kind)
-            script.append((method, who, events))
+            mode = kind.partition("@")[2]
+            if mode == "bleak-once":
+                events = events + events             # the retry wrapper re-runs the method after the failed restore
+            script.append((method, who, events) + ((mode,) if mode else ()))
             hist_calls.append((hi, ci, transport, method, who, kind, events, items))
         hist_scripts.append((transport, script))
 
@@ -1764,7 +1784,8 @@ def run(ctx):
         if last[0] == "reply":
             line_of[(hi, ci)] = len(lines)
             if transport == "ble":
-                lines.append(f"bretry {op} " + " ".join("D" if e[0] == "drop" else f"{e[1]}:{hx(e[2])}" for e in events))
+                evs = events[-1:] if kind.endswith("@bleak-once") else events
+                lines.append(f"bretry {op} " + " ".join("D" if e[0] == "drop" else f"{e[1]}:{hx(e[2])}" for e in evs))
             else:
                 lines.append(f"mgmt {op} {hx(last[2])}")
     hist_models = drv.batch(lines)
@@ -1777,6 +1798,8 @@ def run(ctx):
         model = hist_models[line_of[(hi, ci)]] if (hi, ci) in line_of else "crash"
         if model == "ok done" and method == "rem" and who == "own":
             model = "ok done shutdown"               # _shutdown_if_primary_pairing_removed
+        if kind.endswith("@ade") and model != "ok done shutdown":
+            model = "crash"                          # the failing restore's AccessoryDisconnectedError is what the call raises
         op = transport + method
         descr = " ; ".join(f"{m}-{w}:{k}" for ((m, w), k) in histories[hi][1][:ci + 1])
         cell = mk_cell("mgmt", op, "-", items or [], {}, fields="history", order="history")
@@ -1785,15 +1808,20 @@ def run(ctx):
         cell["meta"]["status"] = str(events[-1][1]) if transport == "ip" else "-"
         cell["history"] = dict(transport=transport, upto_call=ci, calls=[dict(method=m, id=w, accessory=k) for ((m, w), k) in histories[hi][1]],
                                description=descr, outcomes=outs[:ci + 1])
-        if transport == "ble" and sum(e[0] == "drop" for e in events) >= (2 if method == "add" else 10):
+        cell["meta"]["restore"] = kind.partition("@")[2] or "-"
+        if kind.endswith("@ade"):
+            # independent rule: whatever the cleanup does, a refused request is never reported as done
+            cell["ble"] = dict(kind="other", xs=[])
+        elif transport == "ble" and sum(e[0] == "drop" for e in events) >= (2 if method == "add" else 10):
             cell["items"], cell["ble"] = [], dict(kind="other", xs=[])       # every attempt lost the link: no reply was read
-        elif kind == "pdu5":
+        elif kind.partition("@")[0] == "pdu5":
             cell["ble"] = dict(kind="status", xs=[(5, events[-1][2])])
         elif items is None:
             cell["ble"] = dict(kind="other", xs=[])
         n_hist_calls += 1
         record(cell, impl, model)
-    cov.extra["histories"] = dict(histories=len(histories), calls_run=n_hist_calls,
+    env.restore_mode = None
+    cov.extra["histories"] = dict(histories=len(histories), calls_run=n_hist_calls, restore_histories=n_restore_hist,
                                   note="one live BlePairing / IpPairing per history; each call judged by its own last reply")
 
     # ---- vm_compute cross-check of the extracted model on a sample
@@ -1850,8 +1878,10 @@ def run(ctx):
             if hs != dom_h and hs - {"-"}:
                 key += "/http-" + "+".join(sorted(hs - {"-"})) + "-only"
             hp = {cell_hdr(c) for c, _, _, _ in lst}
-            if len(lst) >= 3 and len(hp) == 1 and hp <= {"connection-close", "connection-keep-alive", "connection-close-lower"}:
-                key += "/http-header-" + hp.pop() + "-only"
+            if len(lst) >= 3 and hp and hp <= {"connection-close", "connection-close-lower"}:
+                key += "/http-connection-close-only"
+            elif len(lst) >= 3 and hp == {"connection-keep-alive"}:
+                key += "/http-connection-keep-alive-only"
             if {c["stream"] for c, _, _, _ in lst} == {"hist"}:
                 key += "/history-only"
         merged.setdefault(key, []).extend((c, impl, model, verdict, sk, ek) for c, impl, model, verdict in lst)
